@@ -42,6 +42,12 @@ class LogStream:
     def flush(self):
         return None
 
+    def readable(self):
+        return True
+
+    def writable(self):
+        return True
+
     def close(self):
         self._l("close")
         self.was_closed = True
